@@ -55,23 +55,23 @@ type Sample struct {
 
 // WorkerResult is what one worker process prints on stdout (one JSON object).
 type WorkerResult struct {
-	Engine     string         `json:"engine"`
-	Runs       int            `json:"runs"`
-	HonestRuns int            `json:"honest_runs"`
-	FaultRuns  int            `json:"fault_runs"`
-	Sigs       []uint64       `json:"sigs"`
-	Faults     map[string]int `json:"faults"`
-	Byz        map[string]int `json:"byz"`
-	Probes     map[string]int `json:"probes"`
-	Events     int            `json:"events"`
-	SimNs      int64          `json:"sim_ns"`
-	Samples    []Sample       `json:"samples"`
-	Violations []string       `json:"violations"` // replay file paths (unknown violations)
-	Known      map[string]int `json:"known"`      // known-finding id -> hits
+	Engine     string            `json:"engine"`
+	Runs       int               `json:"runs"`
+	HonestRuns int               `json:"honest_runs"`
+	FaultRuns  int               `json:"fault_runs"`
+	Sigs       []uint64          `json:"sigs"`
+	Faults     map[string]int    `json:"faults"`
+	Byz        map[string]int    `json:"byz"`
+	Probes     map[string]int    `json:"probes"`
+	Events     int               `json:"events"`
+	SimNs      int64             `json:"sim_ns"`
+	Samples    []Sample          `json:"samples"`
+	Violations []string          `json:"violations"` // replay file paths (unknown violations)
+	Known      map[string]int    `json:"known"`      // known-finding id -> hits
 	KnownRep   map[string]string `json:"known_replays"`
-	WallS      float64        `json:"wall_s"`
-	CutShort   bool           `json:"cut_short"`
-	Fatal      string         `json:"fatal,omitempty"`
+	WallS      float64           `json:"wall_s"`
+	CutShort   bool              `json:"cut_short"`
+	Fatal      string            `json:"fatal,omitempty"`
 }
 
 func addInto(dst, src map[string]int) {
@@ -84,7 +84,11 @@ func addInto(dst, src map[string]int) {
 func runOnce(e Engine, t *Tape, prop, tier string, keep bool) (v *Violation, info *RunInfo, harnessPanic any) {
 	info = NewRunInfo(keep)
 	SeedEntropy(SplitMix(t.Seed ^ 0xabcdef))
-	harnessPanic = Guard(func() { v = e.RunOne(t, prop, tier, info) })
+	if os.Getenv("VERIF_DEBUG_PANIC") != "" {
+		v = e.RunOne(t, prop, tier, info)
+	} else {
+		harnessPanic = Guard(func() { v = e.RunOne(t, prop, tier, info) })
+	}
 	if v != nil {
 		if v.Engine == "" {
 			v.Engine = e.Name()
@@ -508,6 +512,9 @@ func TraceRuns(prop, engine, tier string, verifSeed uint64, from, to int, verbos
 			cls = v.Class
 		}
 		fmt.Fprintf(w, "run=%d seed=%d digest=%s sig=%016x draws=%d class=%s panic=%v\n", i, seed, info.LogDigest(), info.SigDigest(), countDraws(t.Rec), cls, hp)
+		if v != nil && verbose {
+			fmt.Fprintf(w, "  VIOLATION %s: %s\n", v.Class, v.Detail)
+		}
 		if verbose {
 			for _, l := range info.Trace {
 				fmt.Fprintf(w, "  %s\n", l)
